@@ -81,10 +81,13 @@ class ValueOps:
             if sv.seq is None:
                 if sv.elems is None:
                     raise Unsupported('sequence without spine')
-                q = st.decls.const('q', 'Int')
+                import hashlib
+                boxed = [self.box(e) for e in sv.elems]
+                q = 'q_' + hashlib.sha1('|'.join(boxed).encode()).hexdigest()[:12]
+                st.decls.consts[q] = 'Int'
                 st.assume(mk_eq("(len %s)" % q, int_lit(len(sv.elems))), 'def')
-                for j, e in enumerate(sv.elems):
-                    st.assume(mk_eq("(at %s %d)" % (q, j), self.box(e)), 'def')
+                for j, b in enumerate(boxed):
+                    st.assume(mk_eq("(at %s %d)" % (q, j), b), 'def')
                 if sv.kind == 'tuple':
                     sv.seq = q
                 else:
@@ -300,7 +303,15 @@ class ValueOps:
             except Exception:
                 pass
         if self._has_eq(a) or self._has_eq(b):
-            raise Unsupported('== on an object with user-defined __eq__')
+            if a.kind == 'val':
+                a = self.narrow(a)
+            if b.kind == 'val':
+                b = self.narrow(b)
+            if a.kind == 'ref' and self._has_eq(a):
+                return self.truthy(self.call_method(a, '__eq__', [b], {}, None))
+            if b.kind == 'ref' and self._has_eq(b):
+                return self.truthy(self.call_method(b, '__eq__', [a], {}, None))
+            return self.py_eq(a, b)
         simple = ('none', 'bool', 'int', 'str', 'ref')
         if a.kind in simple and b.kind in simple:
             if a.kind != b.kind:
